@@ -48,6 +48,7 @@ type freeUser struct {
 	err       error
 	a, b      int64 // logical time of "Realize returned" and "about to Close"
 	cancelled atomic.Bool
+	mode      int // 0: Realize, Close; 1: Realize twice on one proxy, Close; 2: Close twice; 3: Close, Realize again, Close
 }
 
 // yielder perturbs the schedule at the hook points.
@@ -172,6 +173,9 @@ func freeRun(r *hx.Run, rnd *hx.Rand, idx int, maxUsers int) {
 			u.cancelAt = rnd.Intn(40)
 			anyCancel = true
 		}
+		if rnd.Chance(1, 3) {
+			u.mode = 1 + rnd.Intn(3)
+		}
 		users[i] = u
 	}
 	label := fmt.Sprintf("free-run#%d users=%d layers=%d gomaxprocs=%d", idx, nu, nl, runtime.GOMAXPROCS(0))
@@ -222,10 +226,58 @@ func freeRun(r *hx.Run, rnd *hx.Rand, idx int, maxUsers int) {
 				y.maybe()
 				y.maybe()
 			}
+			if u.mode == 1 {
+				// the interface contract: a second Realize on the same proxy, one Close for both
+				var ls2 []claircore.Layer
+				var err2 error
+				descs2 := make([]claircore.LayerDescription, len(u.layers))
+				for i, k := range u.layers {
+					descs2[i] = srv.desc(k, false)
+				}
+				if hx.Guard(func() string { ls2, err2 = p.RealizeDescriptions(ctx, descs2); return "" }) == "panic" {
+					r.Fail("", fmt.Sprintf("%s user=%d second-RealizeDescriptions-panicked", label, u.id))
+				}
+				if err2 == nil {
+					for i, k := range u.layers {
+						if msg := readBack(&ls2[i], layers[k]); msg != "" {
+							r.Fail("", fmt.Sprintf("%s user=%d cannot-read-layer=%d of-its-second-Realize: %s", label, u.id, k, msg))
+						}
+					}
+					r.Count("free:contract=realize-twice-one-close")
+				}
+			}
 			u.b = clock.Add(1)
 			var cerr error
 			if hx.Guard(func() string { cerr = p.Close(); return "" }) == "panic" || cerr != nil {
 				r.Fail("", fmt.Sprintf("%s user=%d Close-failed err=%v", label, u.id, cerr))
+			}
+			switch u.mode {
+			case 2:
+				if hx.Guard(func() string { cerr = p.Close(); return "" }) == "panic" || cerr != nil {
+					r.Fail("", fmt.Sprintf("%s user=%d second-Close-failed err=%v", label, u.id, cerr))
+				}
+				r.Count("free:contract=close-twice")
+			case 3:
+				var ls3 []claircore.Layer
+				var err3 error
+				descs3 := make([]claircore.LayerDescription, len(u.layers))
+				for i, k := range u.layers {
+					descs3[i] = srv.desc(k, false)
+				}
+				if hx.Guard(func() string { ls3, err3 = p.RealizeDescriptions(ctx, descs3); return "" }) == "panic" {
+					r.Fail("", fmt.Sprintf("%s user=%d RealizeDescriptions-after-Close-panicked", label, u.id))
+				}
+				if err3 == nil {
+					for i, k := range u.layers {
+						if msg := readBack(&ls3[i], layers[k]); msg != "" {
+							r.Fail("", fmt.Sprintf("%s user=%d cannot-read-layer=%d realized-after-Close: %s", label, u.id, k, msg))
+						}
+					}
+					r.Count("free:contract=close-then-realize")
+				}
+				if hx.Guard(func() string { cerr = p.Close(); return "" }) == "panic" || cerr != nil {
+					r.Fail("", fmt.Sprintf("%s user=%d Close-after-second-use-failed err=%v", label, u.id, cerr))
+				}
 			}
 		}(u)
 	}
@@ -328,6 +380,14 @@ func freeRun(r *hx.Run, rnd *hx.Rand, idx int, maxUsers int) {
 	}
 	if n := dirEntries(root); n != 0 {
 		r.Fail("", fmt.Sprintf("%s files-left-in-arena-dir n=%d", label, n))
+	}
+	// the arena's own Close: it forgets every key
+	var aerr error
+	if hx.Guard(func() string { aerr = arena.Close(context.Background()); return "" }) == "panic" || aerr != nil {
+		r.Fail("", fmt.Sprintf("%s arena-Close-failed err=%v", label, aerr))
+	}
+	if ks := arena.ArenaKeysForVerif(); len(ks) != 0 {
+		r.Fail("", fmt.Sprintf("%s arena-Close-left-keys n=%d", label, len(ks)))
 	}
 	client.CloseIdleConnections()
 	srv.close()
